@@ -42,7 +42,8 @@ class Contract:
 
 
 class Shape:
-    def __init__(self, name, cls=None, fields=None, methods=None, ghost=False):
+    def __init__(self, name, cls=None, fields=None, methods=None, ghost=False, heap_base=None):
+        self.heap_base = heap_base  # record shapes of one class hierarchy share the field arrays of their base shape
         self.name = name
         self.cls = cls              # "module:Class" or None
         self.fields = fields or {}
@@ -89,7 +90,7 @@ class Registry:
             self.units.append(c)
         return c
 
-    def shape(self, name, cls=None, fields=None, methods=None, base=None, ghost=False):
+    def shape(self, name, cls=None, fields=None, methods=None, base=None, ghost=False, heap_base=None):
         f, m = {}, {}
         if base:
             f.update(self.shapes[base].fields)
@@ -97,7 +98,7 @@ class Registry:
             cls = cls or self.shapes[base].cls
         f.update(fields or {})
         m.update(methods or {})
-        self.shapes[name] = Shape(name, cls, f, m, ghost)
+        self.shapes[name] = Shape(name, cls, f, m, ghost, heap_base)
         return self.shapes[name]
 
     def external(self, name, fn, pure=False):
@@ -243,6 +244,8 @@ class Registry:
             if path:
                 state.paths[r.oid] = path
             return r
+        if typ == "tuple:":
+            return VTuple([])
         if typ.startswith("tuple:"):
             parts = _split_top(typ[6:], ",")
             return VTuple([self.fresh(ex, state, p, "%s_%d" % (name, i)) for i, p in enumerate(parts)])
@@ -307,8 +310,15 @@ class Registry:
             raise Unsupported("field %s not declared in shape %s" % (attr, shape))
         return sh.fields[attr]
 
+    def heap_key(self, shape, attr):
+        sh = self.shapes.get(shape)
+        if sh is not None and sh.heap_base and attr.replace("?none", "") in self.shapes[sh.heap_base].fields:
+            return (sh.heap_base, attr)
+        return (shape, attr)
+
     def _sym_arr(self, state, shape, attr, typ):
-        key = (shape, attr)
+        key = self.heap_key(shape, attr)
+        shape = key[0]
         if key not in state.sheap:
             srt = _sym_sort(typ)
             state.sheap[key] = z3.Array("H0_%s_%s" % (shape, attr), z3.IntSort(), srt)
@@ -337,7 +347,7 @@ class Registry:
         def upd(key_attr, t_new, typ_):
             arr = self._sym_arr(state, ref.shape, key_attr, typ_)
             new = z3.Store(arr, ref.t, t_new)
-            state.sheap[(ref.shape, key_attr)] = new if guard is None else z3.If(guard, new, arr)
+            state.sheap[self.heap_key(ref.shape, key_attr)] = new if guard is None else z3.If(guard, new, arr)
         if opt:
             isn = disj([g for g, a in alts_of(v) if isinstance(a, VNoneT)])
             upd(attr + "?none", simp(isn), "bool")
